@@ -240,6 +240,7 @@ m("in-unmanaged-update-revert", "_snapshot/collection_value.py", "            if
 m("pos-arg-node-bound-revert", "_adapter/generic_call_adapter.py", "                return node.args[pos] if pos < len(node.args) else None\n", "                return node.args[pos]\n", ["C18", "C05"], "revert: defaultdict(list) evaluated again / never compared raises IndexError")
 m("inserted-pos-arg-in-new-value-revert", "_adapter/generic_call_adapter.py", "                # the new argument is part of the new value\n                result_args.append(value.value)\n", "", ["C02"], "revert: comparison under fix is False when positional arguments are inserted")
 m("unchanged-pos-arg-update-revert", "_adapter/generic_call_adapter.py", 'flag="update" if unchanged else "fix",', 'flag="fix",', ["C05"], "revert: defaultdict(list) -> defaultdict(list, {}) reported as fix")
+m("used-externals-alias-revert", "_find_external.py", "            and node.func.id in names\n", "            and node.func.id == \"external\"\n", ["C13"], "revert: references through an aliased import are not found, trim removes their files")
 m("run-inline-external-import-only", "testing/_example.py", '                    if used_hasrepr(tree):\n                        required_imports.append("HasRepr")', '                    if used_hasrepr(tree) and used_externals(tree):\n                        required_imports.append("HasRepr")', ["C19"], "HasRepr import only added together with external")
 
 
